@@ -41,7 +41,7 @@ def spellings_pool():
 def assignments(r, n):
     singles, prefix, perms, rand = [], [], [], []
     for ident in IDENTS:
-        for sp in ("%", ";;", "{}", "`", "%%%", "$$" if ident != "root" else "@@"):
+        for sp in ("%", ";;", "{}", "`", "%%%", "$$" if ident != "root" else "@@", "\U0001f511", "\U0001d482\U0001d483", "\u00a7", "\u222a\U0001f600", "\\", "\\d", "+^"):
             t = dict(DEFAULT_TOKENS)
             if sp in t.values():
                 continue
@@ -62,15 +62,16 @@ def assignments(r, n):
         for i, v in zip(perm_ids, vals):
             t[i] = v
         perms.append(t)
-    pool = spellings_pool() + ["".join(r.choice(ALPHABET) for _ in range(3)) for _ in range(40)]
+    pool = spellings_pool() + ["".join(r.choice(ALPHABET) for _ in range(3)) for _ in range(40)] + ["\U0001f511", "\U0001f511\U0001f511", "\U0001d482", "\u00a7", "\u222a", "\U0001f600x"]
     while len(rand) < n:
         sp = r.sample(pool, 8)
         if len(set(sp)) == 8:
             rand.append(dict(zip(IDENTS, sp)))
+    # (any non-ASCII first character is a member-name start too since names may be non-ASCII)
     # a keys-selector spelling that starts like a member name ("_") collides with the
     # fixed dot-shorthand rule for names (`._` is the member "_"): overlapping, excluded
     for lst in (singles, prefix, perms, rand):
-        lst[:] = [t for t in lst if not (t["keys"][0] == "_" or t["keys"][0].isalnum())]
+        lst[:] = [t for t in lst if not (t["keys"][0] == "_" or t["keys"][0].isalnum() or ord(t["keys"][0]) >= 0x80)]
     out = []
     lists = [singles, prefix, perms, rand]
     i = 0
@@ -92,7 +93,7 @@ def role_swapped(r, tokens):
     for a, b in pairs[:2]:
         t = dict(tokens)
         t[a], t[b] = tokens[b], tokens[a]
-        if t["keys"][0] == "_" or t["keys"][0].isalnum():
+        if t["keys"][0] == "_" or t["keys"][0].isalnum() or ord(t["keys"][0]) >= 0x80:
             continue
         if any(("|" in t[k] or "&" in t[k]) for k in IDENTS if k not in ("union", "inter")):
             continue  # `|` / `&` outside the compound operators would overlap the fixed `||` / `&&` rules
